@@ -2,13 +2,13 @@
 EXTENDS MonAnswers, TraceBase
 
 VARIABLE l
-tvars == <<pending, l>>
+tvars == <<pending, done, l>>
 TInit == MAInit /\ l = 1
 Ev == TraceLog[l]
 IsEvent(e) == l <= TraceLen /\ Ev.e = e /\ l' = l + 1
 
 TRecv == IsEvent("Recv") /\ Recv(Ev.n, Ev.src, Ev.id, Ev.qn, Ev.qt, Ev.tun)
-TAns == IsEvent("Ans") /\ Ans(Ev.dst, Ev.id, Ev.qn, Ev.qt)
+TAns == IsEvent("Ans") /\ Ans(Ev.dst, Ev.id, Ev.qn, Ev.qt, Ev.hdr)
 TStepEnd == IsEvent("StepEnd") /\ StepEnd
 TReset == IsEvent("Reset") /\ MAReset
 \* an emitted non-DNS / question-less datagram on the DNS socket has no enabled action (event "Garbage")
